@@ -73,7 +73,7 @@ NoCall == [f |-> "none", aid |-> -1, sv |-> -1, sel |-> 0, maxit |-> 0, sort |->
 FreshCx(e, run) ==
     [run |-> run, id |-> e.id, n |-> e.n, nev |-> e.nev, ncv |-> e.ncv, ty |-> e.ty, gen |-> (e.cls \in {"gen", "genrs", "gencs"}),
      cls |-> e.cls, mode |-> e.mode, qn |-> e.qn, qnA |-> e.qnA, qnB |-> e.qnB, qnOP |-> e.qnOP, qcond |-> e.qcond, qnS |-> e.qnS,
-     ref |-> e.ref, kf |-> e.kf,
+     ref |-> e.ref, kf |-> e.kf, live |-> e.live, desc |-> e.desc,
      call |-> NoCall,
      ncomp |-> 0,        \* compute() calls on the current object
      sinceInit |-> -1,   \* compute() calls since the last successful init (-1: no successful init)
@@ -82,6 +82,7 @@ FreshCx(e, run) ==
      opdg |-> -1,        \* C06: operator probe digest (first seen)
      armed |-> 0,        \* C14: fault armed at this relative index (0 = none)
      nfault |-> 0,       \* C14: Threw(fault) lines seen
+     prevdesc |-> "",
      lastObs |-> <<>>]
 
 \* ------------------------------------------------------------------------------------------
@@ -273,11 +274,13 @@ EvMPairs(e) ==
            \cup (IF cx.gen /\ cx.ref = 1
                  THEN If(\A i \in 1 .. n : QLe(e.qdist[i], PairBound(e.qlam[i], e.qtol) + 64), "InSpectrumOfA")
                  ELSE {})
-           \* two returned vectors must not be parallel: 1 - |cos| >= 2^-20
-           \cup (IF cx.gen THEN If(e.qpar1 >= -320 \/ n < 2, "Distinct") ELSE {}),
+           \* a returned vector that is a copy of an earlier returned vector (pidx # 0) is a duplicate eigenpair unless
+           \* the matched eigenvalue of A is (numerically) multiple or defective (rmult > 1)
+           \cup (IF cx.gen /\ cx.ref = 1 THEN If(\A i \in 1 .. n : e.pidx[i] = 0 \/ e.rmult[i] > 1, "Distinct") ELSE {}),
         cx)
 
-EvEnd(e) == Res(s, If(cx.armed = 0, "FaultSwallowed") \cup If(s.pc = "idle", "EndedMidCall"), cx)
+\* ov: heap blocks whose tail canary was found overwritten when they were freed (alloc_guard.h)
+EvEnd(e) == Res(s, If(cx.armed = 0, "FaultSwallowed") \cup If(s.pc = "idle", "EndedMidCall") \cup If(e.ov = 0, "HeapOverrun"), cx)
 EvAbort(e) == Res([s EXCEPT !.pc = "idle"], {Hit("Abort")}, cx)
 
 Dispatch(e) ==
@@ -344,16 +347,22 @@ CovOf(e, r) ==
 TrInit ==
     /\ l = 1 /\ mon = {} /\ cov = [key \in CovKeys |-> 0]
     /\ s = Fresh([gen |-> FALSE, nev |-> 1, ncv |-> 2])
-    /\ cx = [run |-> 0]
+    /\ cx = [run |-> 0, desc |-> "", prevdesc |-> "", live |-> 0]
+
+\* C12/C14 leak observation: when the same descriptor is executed again (check.py repeats some descriptors three times)
+\* the number of live heap blocks at the start of the third execution equals that at the start of the second
+LeakHits(e) ==
+    IF cx.run >= 2 /\ cx.desc = e.desc /\ cx.prevdesc = e.desc /\ cx.live # e.live THEN {Hit("NoLeak")} ELSE {}
 
 TrReset ==
     /\ l <= Len(Tr) /\ Tr[l].e = "Reset"
-    /\ LET e == Tr[l] ncx == FreshCx(e, cx.run + 1) IN
+    /\ LET e == Tr[l]
+           ncx == [FreshCx(e, cx.run + 1) EXCEPT !.prevdesc = IF cx.run >= 1 THEN cx.desc ELSE ""] IN
         /\ cx' = ncx
         /\ s' = Fresh([gen |-> ncx.gen, nev |-> e.nev, ncv |-> e.ncv])
         /\ cov' = Bump(Bump(Bump(Bump(cov, "runs", 1), "events", 1), IF ncx.gen THEN "gen_runs" ELSE "herm_runs", 1),
                        "known_family_runs", IF e.kf # 0 THEN 1 ELSE 0)
-        /\ mon' = mon
+        /\ mon' = IF cx.run >= 2 THEN AddHits(mon, LeakHits(e)) ELSE mon
     /\ l' = l + 1
 
 TrStep ==
